@@ -208,6 +208,20 @@ func Concat(a, b *List) *List {
 // short-circuit form lives in the interpreter; AndOr is their strict table).
 func (in *Interp) Binary(op string, a, b Value) (Value, error) {
 	v, err := binary(op, a, b)
+	if in != nil && op == "~" {
+		if x, ok := a.(*List); ok {
+			if y, ok := b.(*List); ok && len(y.Items) < len(x.Items) {
+				// "all of these in that list" on a shorter list: false, or an error if the
+				// (lazy) list is compared first - not specified
+				in.Unspecified = true
+			}
+		}
+	}
+	if in != nil && op == "+" {
+		if _, isStr := a.(Str); isStr && DeepUnordered(b) {
+			in.OrderLeak = true
+		}
+	}
 	if in != nil && err == nil && op == "*" {
 		// '*' is the one arithmetic operator of the value language whose constant
 		// operands the optimizer regroups; an inexact float product makes the result
